@@ -70,13 +70,13 @@ def Defects.asImplemented : Defects :=
     -- open (findings/C02-open-findings.md): needs the author of the stored reference and an order inside the batch
     edgeReplaceUnchecked := true,
     -- findings/C02-replace-other-entity.patch
-    entityChangeUnchecked := true,
+    entityChangeUnchecked := false,
     -- fixed: /repo 37a7f03
     roomlessReplaceUnchecked := false,
     -- findings/C02-deletion-of-other-room.patch
-    delRoomUnchecked := true,
+    delRoomUnchecked := false,
     -- findings/C02-deletion-entity-mismatch.patch
-    delEntityUnchecked := true,
+    delEntityUnchecked := false,
     -- open (findings/C02-open-findings.md): a repair would refuse honest records after a room move
     edgeDelSourceUnchecked := true,
     -- fixed: /repo e73c9e7
